@@ -60,7 +60,63 @@ def gen_c02(seed, tier):
     desc, rng = base_desc(seed, tier, p_nested=0.45, p_kw=0.45, p_unpack=0.15, p_gather=0.12, p_opaque=0.3,
                           p_const=0.2)
     desc["ops"][0]["cfg"]["retry"] = None
+    if seed % 10 == 7:
+        # the same Plan object run by two or three threads at the same time: every run returns the reference value
+        desc["mode"] = "concurrent"
+        desc["clients"] = rng.choice([2, 2, 3])
+        desc["ops"][0]["cfg"].update(max_errors=0, max_workers=rng.choice([1, 2, 3]))
+        for n in desc["world"]["nodes"]:
+            if n["kind"] == "call" and rng.random() < 0.4:
+                n["dur"] = rng.choice([1.0, 2.0])
     return desc
+
+
+def exec_c02_concurrent(prop, desc):
+    import uberjob
+    from model.core import canon, typed_equal
+    from simkit import prims
+
+    world = desc["world"]
+    hist = machine.History(desc)
+    hist.init_sources()
+    tapes = desc.get("tapes") or {}
+    outs = []
+
+    def wrap(client, sim, rt, built, kwargs):
+        results = [None] * desc["clients"]
+
+        def one(i):
+            try:
+                results[i] = ("ok", uberjob.run(built.plan, **kwargs))
+            except BaseException as e:  # noqa
+                results[i] = ("exc", e)
+                if isinstance(e, sched_abort()):
+                    raise
+
+        threads = [prims.Thread(target=one, args=(i,)) for i in range(1, desc["clients"])]
+        for t in threads:
+            t.start()
+        one(0)
+        for t in threads:
+            t.join()
+        outs.extend(results)
+        return results[0][1] if results[0][0] == "ok" else None
+
+    rec = machine.run_op(hist, desc["ops"][0], 0, tape=tapes.get("0"), client_wrap=wrap)
+    viol = O.o_term(rec, world, hist)[:1]
+    if not viol:
+        seen, _ = ref.evaluate(world, rec.built.objs, sources={})
+        exp = ref.eval_output(world, seen, rec.built.objs) if world.get("output") is not None else None
+        for i, r in enumerate(outs):
+            if r is None or r[0] != "ok":
+                viol.append(O.V("concurrent-run-failed", f"run {i} of {len(outs)} simultaneous runs of one plan: {r!r}"))
+                break
+            if not typed_equal(r[1], exp):
+                viol.append(O.V("output-value", f"run {i} of {len(outs)} simultaneous runs of one plan returned "
+                                                f"{canon(r[1])[:200]}, direct evaluation gives {canon(exp)[:200]}"))
+                break
+        viol.extend(O.V(o, m) for o, m in rec.rt.violations[:1])
+    return result(desc, hist, viol)
 
 
 def gen_c04(seed, tier):
@@ -95,7 +151,7 @@ def gen_c06(seed, tier):
     if not op["faults"]["calls"]:
         calls = [n["id"] for n in desc["world"]["nodes"] if n["kind"] == "call"]
         if calls:
-            op["faults"]["calls"][str(rng.choice(calls))] = dict(exc=rng.choice(["E1", "B1"]))
+            op["faults"]["calls"][str(rng.choice(calls))] = dict(exc=rng.choice(["E1", "B1", "F1", "F2"]))
     return desc
 
 
@@ -169,7 +225,7 @@ def gen_c10(seed, tier):
     desc, rng = base_desc(seed, tier, p_dep=0.3, durs=(0.0, 1.0, 1.0, 2.0, 5.0))
     world = desc["world"]
     op = desc["ops"][0]
-    op["faults"] = dict(calls=worldgen.gen_call_faults(rng, world, p_fail=0.3, excs=("E1", "E2", "B1"), flaky=flaky))
+    op["faults"] = dict(calls=worldgen.gen_call_faults(rng, world, p_fail=0.3, excs=("E1", "E2", "B1", "F1"), flaky=flaky))
     op["cfg"]["retry"] = rng.choice([None, 1, 2, 3, 4, ["custom", 2], ["custom", 3]])
     op["cfg"]["max_errors"] = rng.choice([0, 1, 2, 3, None, None])
     return desc
@@ -472,8 +528,8 @@ def execute(prop, desc):  # noqa: F811
 def gen_c13(seed, tier):  # noqa: F811
     rng0 = worldgen.child_rng(seed, "c13")
     registry = rng0.random() < 0.5
-    mode = rng0.choice(["single", "single", "concurrent", "repeat", "foreign"])
-    if mode == "foreign":
+    mode = rng0.choice(["single", "single", "concurrent", "repeat", "foreign", "physical"])
+    if mode in ("foreign", "physical"):
         registry = True
     desc, rng = base_desc(seed, tier, registry=registry, faults=(mode == "single" and rng0.random() < 0.5),
                           p_unpack=0.0 if registry else 0.08)
@@ -569,6 +625,37 @@ def exec_c13(prop, desc):
                 viol.append(O.V("concurrent-run-value", f"client {i}: {canon(r[1])[:200]} != {canon(exp)[:200]}"))
                 break
         viol.extend(v for v in (O.V(o, m) for o, m in rec.rt.violations))
+    if not viol and mode == "physical":
+        # the Plan handed to run is itself the physical plan a dry run returned: it is a Plan like any other
+        dop = dict(op, cfg=dict(op["cfg"], dry_run=True, retry=None, max_errors=0))
+        rec_d = machine.run_op(hist, dop, 1, built=rec.built)
+        if rec_d.exc is None and isinstance(rec_d.result, tuple):
+            phys, out_node = rec_d.result
+            pr = _PR(phys, None)
+            pr.ids, pr.nodes = {}, {}
+            before = machine.snapshot(pr)
+            outs_p = []
+            for rep in range(2):
+                def runner(built, kwargs, _phys=phys, _out=out_node):
+                    kw = {k: v for k, v in kwargs.items() if k in ("max_workers", "scheduler", "max_errors", "progress")}
+                    return uberjob.run(_phys, output=_out, **kw)
+
+                st_snap = hist.disk.snapshot()
+                rec_p = machine.run_op(hist, dict(op, cfg=dict(op["cfg"], capture_physical=False, retry=None, max_errors=0)),
+                                       2 + rep, built=rec.built, runner=runner)
+                hist.disk.restore(st_snap)
+                d = machine.snapshot_diff(before, machine.snapshot(pr))
+                if d:
+                    viol.append(O.V("plan-modified", f"run changed the Plan it was given (a physical plan returned by a dry "
+                                                     f"run), execution {rep + 1}: {d}"))
+                    break
+                outs_p.append((rec_p.exc is None, rec_p.result))
+            if not viol and len(outs_p) == 2:
+                from model.core import canon
+
+                if outs_p[0][0] != outs_p[1][0] or canon(outs_p[0][1]) != canon(outs_p[1][1]):
+                    viol.append(O.V("rerun-differs", f"the same physical plan run twice from the same store state gave "
+                                                     f"{canon(outs_p[0][1])[:150]} then {canon(outs_p[1][1])[:150]}"))
     if not viol and mode == "repeat":
         rec2 = machine.run_op(hist, op, 1, built=rec.built)
         viol.extend(O.o_unmodified(rec2, world, hist))
@@ -799,6 +886,8 @@ _execute_plain = execute
 def execute(prop, desc):  # noqa: F811
     if desc.get("mode") == "direct":
         return exec_direct(prop, desc)
+    if prop == "C02" and desc.get("mode") == "concurrent":
+        return exec_c02_concurrent(prop, desc)
     return _execute_plain(prop, desc)
 
 
@@ -831,6 +920,12 @@ def gen_c07(seed, tier):  # noqa: F811
         desc = _registry_fault_desc(seed, tier, "c07r")
     else:
         desc = _gen_c07_plain(seed, tier)
+    if seed % 11 == 3 and not desc.get("cyclic"):
+        # `progress=[...]`: a bundled display with its update thread next to a member that cannot start / finish
+        rng = worldgen.child_rng(seed, "c07p")
+        op = desc["ops"][0]
+        op["cfg"]["progress"] = "bundled-fail"
+        op["cfg"]["fail_kind"] = rng.choice(["enter", "exit"])
     if seed % 7 == 0 and not desc.get("cyclic"):
         # resource failure while the pool starts: Thread.start raises for the k-th thread
         rng = worldgen.child_rng(seed, "c07t")
